@@ -11,7 +11,7 @@ Requests
   layout_smin     <tree>                                ->  <n>                                                | unmodelled
   layout_text_spec <text> <width>                       ->  <min>,<max>,<wrapped 0|1|E>   (Text.__rich_measure__ and "rendered at w, is any paragraph divided?")
 
-  flags = frames variant bitmask (as Drv/C08) , the Text/Wrap flags (as Drv/C02 `decWVariant?`) , the three table flags   e.g. `12,00000001,000`
+  flags = frames variant bitmask (as Drv/C08) , the Text/Wrap flags (as Drv/C02 `decWVariant?`) , the table flags (three to six, by position)   e.g. `0,00000000,000000` (all repaired: what the harness sends for /repo)
   env   = consoleWidth,ascii,legacy,safe,nocolor,colorsystem
   opts  = justify overflow nowrap (one character each, as Drv/C02: N d l c r f / N f c e i / N 0 1) joined by `,`
   tree  = prefix tokens joined by `|` (see `parseR`); a text token is the wire format of Drv/C02 (`decText?`)
@@ -60,7 +60,7 @@ def decFlags (s : String) : Option (Frames.Variant × Wrap.WVariant × Flags) :=
                                 rstripCountsChars := n / 4 % 2 == 1, columnsZeroCount := n / 8 % 2 == 1 }
     let wv ← C02.decWVariant? b
     -- table flags by position (leadingRepeat, minWidthCapsExpand, fixedRawMaximum, noColumnsAsserts, flexNegative, staleTableWidth);
-    -- a flag the request does not mention keeps the model's default (= today's code)
+    -- a flag the request does not mention keeps the model's default (`true` = rich 9.10.0 as found); the harness sends all six
     let bit (i : Nat) (dflt : Bool) : Bool := match c.toList[i]? with | some ch => ch == '1' | none => dflt
     let d : Flags := {}
     if c.toList.length < 3 then none else
